@@ -151,6 +151,8 @@ def build(desc):
         return U.CU([build(c) for c in desc[1]], desc[2])
     if t == 'ci':
         return U.CI(*[build(c) for c in desc[1]])
+    if t == 'co':
+        return U.CO(*[build(c) for c in desc[1]])
     if t == 'dc':
         return U.DC(build(desc[1]), build(desc[2]), _meta(desc[3]))
     if t == 'dci':
@@ -313,7 +315,7 @@ META = st.sampled_from([None, 'm', 3, ['tup', 1, 2]])
 
 
 ALL_KINDS = ('tuple', 'list', 'dict', 'od', 'dd', 'deque', 'nt', 'ss', 'cg', 'cn', 'cs', 'cm', 'cu',
-             'ci', 'dc', 'partial', 'cq', 'cp', 'dci', 'ntc', 'cl', 'dsn')
+             'ci', 'dc', 'partial', 'cq', 'cp', 'dci', 'ntc', 'cl', 'dsn', 'co')
 _WEIGHT = {'tuple': 3, 'list': 3, 'dict': 4, 'od': 3, 'dd': 3, 'deque': 2, 'nt': 2}
 _LEAF = leaf_descs()
 _META = META
@@ -403,6 +405,8 @@ def _node(draw, budget, depth, keys, kinds, max_depth, leaf=None):
         return ['cu', kids(3), draw(st.lists(st.integers(0, 2), max_size=2))]
     if kind == 'ci':
         return ['ci', kids(3)]
+    if kind == 'co':
+        return ['co', kids(3)]
     if kind == 'fn':
         return ['fn', kids(3), draw(st.sampled_from([None, 1, 2]))]
     if kind == 'cq':
@@ -592,7 +596,7 @@ ARRAY_FACTORY = None
 def children_refs(desc):
     """[(container, index)] such that container[index] is a child tree description of this node"""
     t = desc[0]
-    if t in ('tuple', 'list', 'deque', 'cg', 'cu', 'ci', 'cq', 'fn', 'cl'):
+    if t in ('tuple', 'list', 'deque', 'cg', 'cu', 'ci', 'cq', 'fn', 'cl', 'co'):
         return [(desc[1], i) for i in range(len(desc[1]))]
     if t in ('nt', 'ss'):
         return [(desc[2], i) for i in range(len(desc[2]))]
@@ -739,12 +743,12 @@ def near_miss(draw, desc, edits=None, allow_root=False):
             if e == 'list_tuple' and t in ('list', 'tuple'):
                 c[i] = ['tuple' if t == 'list' else 'list', n[1]]
                 return root[0], e
-            if e == 'arity_plus' and t in ('list', 'tuple', 'deque', 'cg', 'ci', 'cq', 'cl') and not (t == 'cl' and len(n[1]) >= 4):
+            if e == 'arity_plus' and t in ('list', 'tuple', 'deque', 'cg', 'ci', 'cq', 'cl', 'co') and not (t == 'cl' and len(n[1]) >= 4):
                 n[1].append(['i', 7])
                 if t == 'deque':
                     n[3] = []
                 return root[0], e
-            if e == 'arity_minus' and t in ('list', 'tuple', 'cg', 'ci', 'cq', 'cl') and n[1]:
+            if e == 'arity_minus' and t in ('list', 'tuple', 'cg', 'ci', 'cq', 'cl', 'co') and n[1]:
                 n[1].pop(draw(st.integers(0, len(n[1]) - 1)))
                 return root[0], e
             if e in ('key_rename', 'key_add', 'key_remove') and t in ('dict', 'od', 'dd', 'cm', 'cp', 'dsn'):
